@@ -177,11 +177,11 @@ def gen_lifecycle_consts():
 # stream 1: generated task graphs x fault placements on the virtual clock, both subsystems
 # ------------------------------------------------------------------------------------------------
 SWITCHES = [("d_cb_raise_breaks", "D22"), ("d_service_no_cbrec", "D20"), ("d_fin_cancel_escapes", "D140"), ("d_live_iter", "D141"),
-            ("d_call_cancel_kills", "D142")]
+            ("d_call_cancel_kills", "D142"), ("d_shutdown_no_cbrec", "D143")]
 HORIZON = 2 ** 28          # ticks of 2**-12 s; every instant of a case is a sum of distinct powers of two below this
 LOW_BITS = [0, 1, 2, 3]    # reserved for fault offsets
 HIGH_BITS = list(range(4, 28))
-EXC = {"KeyError": 1, "TypeError": 2, "ValueError": 3}
+EXC = {"KeyError": 1, "TypeError": 2, "ValueError": 3}      # anything else (e.g. NameError) is 0: not raisable by a generated program
 KINDS = {"ev": "KTrig", "st": "KTrig", "svc": "KSvc", "create": "KCreate", "csvc": "KSvc"}
 
 
@@ -198,6 +198,8 @@ def _gen_base(rng):
     callee = rng.randrange(1, n) if n >= 2 and rng.random() < 0.4 else None
     if callee is not None:
         kinds[callee] = "csvc"
+    # 30 % "names" graphs: many task.unique steps over 3 names (tasks holding several names, take-overs, exits)
+    names_mode = rng.random() < 0.3
     ncb = rng.choice([1, 2, 2, 3, 3, 4])
     cbs = []
     for _j in range(ncb):
@@ -215,6 +217,9 @@ def _gen_base(rng):
         after_wait = False
         while len(steps) < length + 1:
             r = rng.random()
+            if names_mode and r < 0.45 and not (after_wait and not relaxed):
+                steps.append(["claim", rng.randrange(3)])
+                continue
             if after_wait and not relaxed:
                 steps.append(["sleep", 0])
                 after_wait = False
@@ -279,6 +284,45 @@ def _gen_base(rng):
                 break
         lo = min(0 if relaxed else 1, stop)
         st.insert(rng.randint(lo, stop), ["call", callee])
+    # 40 %: two or three tasks of one kind are runs of the SAME function (told apart by an argument): overlapping runs
+    if n >= 2 and rng.random() < 0.45:
+        done = False
+        for kd in rng.sample(["ev", "svc", "create"], 3):
+            same = [i for i in range(n) if kinds[i] == kd]
+            if len(same) >= 2:
+                for i in rng.sample(same, rng.choice([2, len(same)])):
+                    tasks[i]["fn"] = 0
+                done = True
+                break
+        inj = [i for i in range(n) if kinds[i] in ("ev", "st", "svc")]
+        if not done and len(inj) >= 2:
+            kd = rng.choice(["ev", "svc"])
+            for i in rng.sample(inj, 2):
+                tasks[i]["kind"] = kinds[i] = kd
+                tasks[i]["fn"] = 0
+    # 20 % (at most 4 tasks): an extra run of a @time_trigger("shutdown") function in a file of its own that is reloaded;
+    # it only acts on itself (its names live in that file's context)
+    if n < 4 and rng.random() < 0.2:
+        st = [["sleep", 0]] if not relaxed else []
+        for _ in range(rng.choice([1, 2, 3, 4])):
+            r = rng.random()
+            if r < 0.3:
+                st.append(["sleep", 0])
+            elif r < 0.55:
+                st.append(["claim", rng.randrange(2)])
+            elif r < 0.75:
+                st.append(["add", n, rng.choice([j for j in range(ncb) if not cbs[j]["sleep"]] or [0]), rng.randrange(1, 50)])
+            elif r < 0.8:
+                st.append(["rem", n, rng.randrange(ncb)])
+            elif r < 0.9:
+                st.append(["cancelself"])
+                break
+            else:
+                st.append(rng.choice([["raise"], ["ret", 7]]))
+                break
+        if not any(cb["sleep"] for cb in cbs) or True:
+            tasks.append({"kind": "shut", "at": None, "steps": st})
+            kinds.append("shut")
     # allocate distinct power-of-two durations
     need = sum(1 for t in tasks for s in t["steps"] if s[0] == "sleep") + sum(1 for cb in cbs if cb["sleep"]) + sum(
         1 for t in tasks if t["kind"] not in ("create", "csvc"))
@@ -391,11 +435,37 @@ FIXED += [
 ]
 
 
+FIXED += [
+    # a task holding two unique names loses one to another task and exits: both names must be forgotten (C14-4 style);
+    # the taker re-claims a name it holds
+    {"tasks": [{"kind": "ev", "at": 2 ** 10, "steps": [["sleep", 2 ** 12], ["claim", 0], ["claim", 1], ["claim", 2], ["sleep", 2 ** 16], ["ret", 1]]},
+               {"kind": "st", "at": 2 ** 11, "steps": [["sleep", 2 ** 14], ["claim", 1], ["claim", 1], ["claim", 2], ["sleep", 2 ** 13], ["claim", 2],
+                                                        ["sleep", 2 ** 15], ["ret", 2]]}],
+     "cbs": [{"sleep": 0, "raise": False}], "faults": []},
+    # three overlapping runs of ONE trigger function / ONE service, resumed in non-nested order (C14-5 style)
+    {"tasks": [{"kind": "ev", "fn": 0, "at": 2 ** 10, "steps": [["sleep", 2 ** 15], ["add", 0, 0, 5], ["sleep", 2 ** 13], ["ret", 1]]},
+               {"kind": "ev", "fn": 0, "at": 2 ** 11, "steps": [["sleep", 2 ** 12], ["add", 1, 0, 6], ["sleep", 2 ** 16], ["ret", 2]]},
+               {"kind": "ev", "fn": 0, "at": 2 ** 9, "steps": [["sleep", 2 ** 14], ["wait", 1], ["ret", 3]]}],
+     "cbs": [{"sleep": 0, "raise": False}], "faults": []},
+    {"tasks": [{"kind": "svc", "fn": 0, "at": 2 ** 10, "steps": [["sleep", 2 ** 15], ["claim", 0], ["sleep", 2 ** 13], ["ret", 1]]},
+               {"kind": "svc", "fn": 0, "at": 2 ** 11, "steps": [["sleep", 2 ** 12], ["create", 2], ["create", 3], ["sleep", 2 ** 16], ["ret", 2]]},
+               {"kind": "create", "fn": 1, "at": None, "steps": [["sleep", 2 ** 14], ["ret", 3]]},
+               {"kind": "create", "fn": 1, "at": None, "steps": [["sleep", 2 ** 9], ["sleep", 2 ** 17], ["ret", 4]]}],
+     "cbs": [{"sleep": 0, "raise": False}], "faults": []},
+    # a shutdown-trigger run (file reloaded): unique name, own done-callback, task.cancel() inside (C14-6 style; D143 in legacy)
+    {"tasks": [{"kind": "ev", "at": 2 ** 10, "steps": [["sleep", 2 ** 15], ["claim", 0], ["ret", 1]]},
+               {"kind": "shut", "at": 2 ** 11, "steps": [["sleep", 2 ** 12], ["claim", 0], ["add", 1, 0, 5], ["sleep", 2 ** 13], ["cancelself"]]}],
+     "cbs": [{"sleep": 0, "raise": False}], "faults": []},
+    {"tasks": [{"kind": "shut", "at": 2 ** 11, "steps": [["sleep", 2 ** 12], ["claim", 1], ["sleep", 2 ** 13], ["ret", 3]]}],
+     "cbs": [{"sleep": 0, "raise": False}], "faults": []},
+]
+
+
 def _names(case):
-    return sorted({s[1] for t in case["tasks"] for s in t["steps"] if s[0] == "claim"})
+    return sorted({s[1] + (10 if t["kind"] == "shut" else 0) for t in case["tasks"] for s in t["steps"] if s[0] == "claim"})
 
 
-def _q_step(s):
+def _q_step(s, name_off=0):
     op = s[0]
     if op == "sleep":
         return f"SSleep {q.N(s[1])}"
@@ -412,7 +482,7 @@ def _q_step(s):
     if op == "create":
         return f"SCreate {q.N(s[1])}"
     if op == "claim":
-        return f"SClaim {q.N(s[1])}"
+        return f"SClaim {q.N(s[1] + name_off)}"
     if op == "raise":
         return "SRaise"
     if op == "ret":
@@ -445,6 +515,8 @@ def _q_event(e):
         k = f"EW {q.N(e[3])} {q.boolean(e[4])} {q.boolean(e[5])} {q.N(_res_code(e[6]))}"
     elif kind == "r":
         k = f"ER {q.N(e[3])} {q.boolean(e[4])} {q.boolean(e[5])} {q.N(_res_code(e[6]))}"
+    elif kind == "l":
+        k = f"EL {q.N(e[3])}"
     elif kind == "cb":
         k = f"ECb {q.N(e[3])} {q.N(e[4])}"
     elif kind == "ce":
@@ -465,7 +537,10 @@ class GraphStream(Stream):
             "two so that all timers fall on distinct virtual instants (= one schedule per graph; in 40 % of the graphs tasks may also act right after being created / right after a wait, i.e. several tasks act inside one instant in ready-queue order); per graph: the graph itself "
             "+ EVERY suspension point (sleep, wait, blocking service call, suspended done-callback) once as a cancellation point (the real "
             "user_task_cancel is invoked at a random instant inside the suspension, 20 % with a second fault) and once as a "
-            "raise point; 8 fixed graphs x 2 subsystems; legacy and default subsystem chosen per graph; the script reports "
+            "raise point; 30 % of the graphs are dense in task.unique steps over 3 names (several names per task, take-overs, exits); in 40 % "
+            "two or three tasks are overlapping runs of ONE function (event trigger / service / task.create target, told apart by an "
+            "argument; every event carries the run's local variable, which must be its own); 20 % have an extra run of a "
+            "@time_trigger('shutdown') function started by reloading its file; 13 fixed graphs x 2 subsystems; legacy and default subsystem chosen per graph; the script reports "
             "through event.fire, the listener records virtual time, the running task and a registry snapshot per event; "
             "non-trivial = at least 2 tasks or a fault or a callback; distinct by the whole case")
     requires = "From PV Require Import Task.Lifecycle Task.LifecycleCheck."
@@ -507,7 +582,9 @@ class GraphStream(Stream):
 
     def to_coq(self, case, obs):
         tasks = q.lst(
-            "mkTd %s %s %s" % (KINDS[t["kind"]], q.N(2 ** 40 if t["kind"] == "csvc" else (t["at"] or 0)), q.lst(_q_step(s) for s in t["steps"]))
+            "mkTd %s %s %s" % (("KShutL" if case["sub"] == "legacy" else "KTrig") if t["kind"] == "shut" else KINDS[t["kind"]],
+                               q.N(2 ** 40 if t["kind"] == "csvc" else (t["at"] or 0)),
+                               q.lst(_q_step(s, 10 if t["kind"] == "shut" else 0) for s in t["steps"]))
             for t in case["tasks"])
         cbs = q.lst("mkCd %s %s" % (q.N(cb["sleep"]), q.boolean(cb["raise"])) for cb in case["cbs"])
         faults = q.lst("mkF %s (%s) %s" % (q.N(f["task"]), ("FStep %s" if f["pt"][0] == "step" else "FCb %s") % q.N(f["pt"][1]), q.N(f["off"]))
